@@ -18,7 +18,7 @@ pub struct Case {
     pub fragment: bool,
 }
 
-pub const SIGMA_TXT: [&str; 12] = ["a", " ", "\t", "\n", "\r", "<", "&", ">", "\"", "'", "]", "\u{10000}"];
+pub const SIGMA_TXT: [&str; 14] = ["a", " ", "\t", "\n", "\r", "<", "&", ">", "\"", "'", "]", "\u{10000}", "\u{85}", "\u{2028}"];
 
 /// normal form for comparison: attributes as a set, declarations as a map
 pub fn norm(a: &A) -> A {
@@ -303,12 +303,61 @@ pub fn run(tier: Tier) -> i32 {
             }
         }
     }));
-    if let Err(e) = require_nonzero(&stats, &["content_cases", "structure_cases", "layouts_serialisable", "uri_cases"]) {
+    // (e) comment and PI bodies: every string free of the node's own terminator. CR is left out: a literal CR in a
+    // comment or PI is read back as LF by any XML parser and cannot be escaped there, so XML 1.0 cannot express it.
+    const SIGMA_BODY: [&str; 12] = ["a", "-", "?", ">", "<", "&", " ", "\n", "\t", "]", "!", "\u{85}"];
+    let bl = tier.pick(3, 4);
+    let bt = strings_count(SIGMA_BODY.len() as u64, bl);
+    stats = stats.merge(par_range(&ctx, bt, |i, st| {
+        let b = nth_str(&SIGMA_BODY, bl, i);
+        let mut trees = vec![];
+        if !b.contains("--") && !b.ends_with('-') {
+            trees.push(A::doc(vec![A::comment(&b), A::el("", "a").child(A::comment(&b)).child(A::text("t")), A::comment(&b)]));
+        }
+        // PI data cannot start with white space (it would be read as the separator) and cannot be empty
+        if !b.contains("?>") && !b.is_empty() && !b.starts_with([' ', '\n', '\t']) {
+            trees.push(A::doc(vec![A::pi("pi", Some(&b)), A::el("", "a").child(A::pi("pi", Some(&b))), A::pi("p.i-2", Some(&b))]));
+        }
+        for t in trees {
+            let case = Case { tree: t, fragment: false };
+            let fails = eval_case(&case, st, true);
+            st.bump("body_cases");
+            st.outcome(&case.tree.canon());
+            for f in fails {
+                st.fail(&case, f);
+            }
+        }
+    }));
+    // (f) names: NCNames beyond ASCII letters, as element, attribute, prefix and PI target, in and out of a namespace
+    const NAMES: [&str; 14] = ["a", "A", "_", "a-b", "a.b", "a1", "_1", "\u{e9}", "a\u{b7}", "\u{3b1}\u{3b2}", "\u{4e2d}", "\u{10000}", "xmlfoo", "a\u{300}"];
+    let nn = NAMES.len() as u64;
+    stats = stats.merge(par_range(&ctx, nn * nn, |i, st| {
+        let (n1, n2) = (NAMES[(i / nn) as usize], NAMES[(i % nn) as usize]);
+        let mut trees = vec![
+            A::doc(vec![A::el("", n1).attr("", n2, "v").child(A::pi(n2, None)).child(A::el("", n2))]),
+            A::doc(vec![A::el(X, n1).decl(n2, X).attr(X, n2, "v").child(A::el(X, n2).attr("", n1, "w"))]),
+            A::doc(vec![A::el(X, n1).decl("", X).decl(n2, Y).attr(Y, n1, "v").child(A::el(Y, n2))]),
+        ];
+        if n2.starts_with("xml") {
+            // prefixes beginning with xml are reserved; keep them out of the prefix position
+            trees.truncate(1);
+        }
+        for t in trees {
+            let case = Case { tree: t, fragment: false };
+            let fails = eval_case(&case, st, true);
+            st.bump("name_cases");
+            st.outcome(&case.tree.canon());
+            for f in fails {
+                st.fail(&case, f);
+            }
+        }
+    }));
+    if let Err(e) = require_nonzero(&stats, &["content_cases", "structure_cases", "layouts_serialisable", "uri_cases", "body_cases", "name_cases"]) {
         eprintln!("MACHINERY: {}", e);
         return 2;
     }
     let cov = json!({
-        "rule": format!("(a) every string of length <= {} over {{a, space, TAB, LF, CR, <, &, >, \", ', ], U+10000}} as attribute value and text of <a k=S>S</a> and as text of fragment S<a/>S; (b) every document / fragment with <= {} ordinary nodes over 4 element prototypes, text, comment, PI with/without data, no adjacent text{}; (c) every serialisable namespace layout of 1-3 elements (540 specs per element; 3-element layouts over a reduced menu); each tree round-tripped as built by the creation API, as re-parsed, and as assembled by moving subtrees; distinct = distinct canonical trees", l, 5, tier.pick("", "; plus every document with 6 nodes over 2 element prototypes")),
+        "rule": format!("(a) every string of length <= {} over {{a, space, TAB, LF, CR, <, &, >, \", ', ], U+10000, U+0085, U+2028}} as attribute value and text of <a k=S>S</a> and as text of fragment S<a/>S; (b) every document / fragment with <= {} ordinary nodes over 4 element prototypes, text, comment, PI with/without data, no adjacent text{}; (c) every serialisable namespace layout of 1-3 elements (540 specs per element; 3-element layouts over a reduced menu); (d) namespace URIs of length <= 2 over 10 symbols; (e) every comment / PI body of length <= {} over {{a - ? > < & space LF TAB ] ! U+0085}} that is free of its own terminator, at top level and inside an element; (f) every pair of 14 NCNames (ASCII with - . _ digits, Latin-1, Greek, CJK, U+10000, combining and middle-dot name characters, xml-prefixed) as element, attribute, prefix and PI target names; each tree round-tripped as built by the creation API, as re-parsed, and as assembled by moving subtrees; distinct = distinct canonical trees", l, 5, tier.pick("", "; plus every document with 6 nodes over 2 element prototypes"), bl),
         "bounds": {"string_len": l, "max_nodes": tier.pick(5, 6), "layout_total": lt, "uri_len": 2},
     });
     ctx.finish(stats, cov, vec![])
